@@ -111,12 +111,19 @@ func c04Compare(c *cluster.Cluster, name string) (field, detail string, copies i
 }
 
 func c04Child(ctx *runCtx, spec string) {
+	if strings.HasPrefix(spec, "janitor ") {
+		c04JanitorChild(ctx, spec)
+		return
+	}
 	var n, r, scripts int
 	var ts uint64
 	var seed int64
 	var lru int
 	fmt.Sscanf(spec, "N=%d R=%d ts=%d lru=%d scripts=%d seed=%d", &n, &r, &ts, &lru, &scripts, &seed)
-	ccfg := cluster.Config{Replicas: r, Partitions: 7, TableSize: ts, WriteQuorum: 1, EvictionWorkers: 1}
+	ccfg := cluster.Config{Replicas: r, Partitions: 7, TableSize: ts, WriteQuorum: 1, EvictionWorkers: 1, ReadRepair: seed%2 == 1}
+	if ccfg.ReadRepair {
+		ctx.rep.Count("clusters_with_read_repair", 1)
+	}
 	if lru >= 1 {
 		ccfg.DMaps = func(d *config.DMaps) {
 			d.EvictionPolicy = config.LRUEviction
@@ -187,6 +194,12 @@ func c04Child(ctx *runCtx, spec string) {
 			x := rng.Intn(100)
 			if lru >= 1 {
 				x = rng.Intn(42) // puts mostly, to push fragments over their share; some Expire / GetPut
+			}
+			// embedded calls made with a context that is already cancelled: either refused, or acknowledged
+			// and then complete on every copy
+			doneCtx := (kind == "EO" || kind == "EN") && x < 82 && rng.Intn(5) == 0
+			if doneCtx {
+				cancel()
 			}
 			switch {
 			case x < 30:
@@ -275,6 +288,23 @@ func c04Child(ctx *runCtx, spec string) {
 				}
 			}
 			cancel()
+			if doneCtx {
+				step.Opts += "(cancelled-context)"
+				ctx.rep.Count("calls_with_cancelled_context", 1)
+				if err != nil {
+					// refused: nothing is promised about this call; an acknowledged plain Put of the key follows,
+					// after which the key's copies must agree again
+					ctx.rep.Count("calls_with_cancelled_context_refused", 1)
+					step.Res = "refused"
+					script = append(script, step)
+					hx, hcancel := context.WithTimeout(bg, 20*time.Second)
+					err = sess.Via("EO").Put(hx, key, val, paths.PutOpts{})
+					hcancel()
+					step = c04Step{Key: key, Path: "EO", Op: "Put", Opts: "(after the refused call)"}
+				} else {
+					ctx.rep.Count("calls_with_cancelled_context_acknowledged", 1)
+				}
+			}
 			step.Res = paths.Class(err)
 			script = append(script, step)
 			ctx.rep.Count("ops_"+step.Op, 1)
@@ -421,6 +451,13 @@ func c04Run(ctx *runCtx) int {
 	batches = append(batches, batch{Spec: fmt.Sprintf("N=4 R=3 ts=1024 lru=1 scripts=%d seed=%d", lruScripts, ctx.seed*1000+51), Timeout: 20 * time.Minute})
 	batches = append(batches, batch{Spec: fmt.Sprintf("N=3 R=2 ts=1048576 lru=2 scripts=%d seed=%d", lruScripts, ctx.seed*1000+52), Timeout: 20 * time.Minute})
 	batches = append(batches, batch{Spec: fmt.Sprintf("N=3 R=3 ts=1048576 lru=3 scripts=%d seed=%d", lruScripts, ctx.seed*1000+53), Timeout: 20 * time.Minute})
+	ji := 600
+	if ctx.tier == "thorough" {
+		ji = 6000
+	}
+	batches = append(batches,
+		batch{Spec: fmt.Sprintf("janitor N=2 R=2 workers=8 iters=%d seed=%d", ji, ctx.seed*1000+60), Timeout: 20 * time.Minute},
+		batch{Spec: fmt.Sprintf("janitor N=3 R=3 workers=8 iters=%d seed=%d", ji, ctx.seed*1000+61), Timeout: 20 * time.Minute})
 	runBatches(ctx, batches, 6, func(b batch, res batchResult, tail string) {
 		ctx.rep.Violate("c04|member-crashed-or-hung", fmt.Sprintf("child %s died (exit %d timeout=%v): %s", b.Spec, res.ExitCode, res.TimedOut, lastLines(tail, 12)), map[string]interface{}{"batch": b.Spec})
 	})
